@@ -185,6 +185,24 @@ func (b *c14b) noise(file, fn string, indent int) {
 		b.deadJumps(file, fn, indent)
 		return
 	}
+	if b.r.Chance(1, 3) {
+		// constructs that span lines or are skipped by the scanner: later line numbers depend on them
+		switch b.r.Intn(4) {
+		case 0:
+			b.emit(file, fn, "// comment with a \"string\" and a brace {", indent)
+		case 1:
+			b.emit(file, fn, "/* block comment", indent)
+			b.emit(file, fn, "   spanning { three", indent)
+			b.emit(file, fn, "   lines */", indent)
+		case 2:
+			x := b.v()
+			b.emit(file, fn, x+" := `raw string", indent)
+			b.emit(file, fn, "over two lines`", 0)
+		default:
+			b.emit(file, fn, b.v()+" := \"escaped \\n newline and \\\" quote\" /* trailing */ // comment", indent)
+		}
+		return
+	}
 	switch b.r.Intn(5) {
 	case 0:
 		b.emit(file, fn, b.v()+" := "+itoa(b.r.Intn(50))+" * 2 + 1", indent)
@@ -457,6 +475,23 @@ func genC14(r *plan.Rng) *plan.Plan {
 		mods = append(mods, "sub")
 	}
 	mainSrc := lines(root...)
+	eol := r.Intn(6)
+	fix := func(src string) string {
+		switch eol {
+		case 0:
+			return strings.ReplaceAll(src, "\n", "\r\n")
+		case 1:
+			return strings.TrimSuffix(src, "\n")
+		}
+		return src
+	}
+	mainSrc = fix(mainSrc)
+	for i := range p.Modules {
+		if p.Modules[i].Src != "" {
+			p.Modules[i].Src = fix(p.Modules[i].Src)
+		}
+	}
+	note(p, "eol", []string{"crlf", "noFinalNewline", "lf", "lf", "lf", "lf"}[eol])
 	if asModule {
 		p.Modules = append(p.Modules, plan.Module{Name: "prog", Src: mainSrc})
 		mods = append(mods, "prog")
